@@ -1,7 +1,7 @@
 // Replayer for module Eigen (C12): SU_vector::GetEigenSystem(order) on matrices with exactly known spectra.
 // stdin records:
 //   CASE id f d s  M0[d*d*5] hasM1 M1[d*d*5]  spec[d x (p q e)]     M = M0 + 2^-s M1, eigenvalue = p + q sqrt2 + 2^-s e (ascending)
-//   RAND idx d seed kind      seeded dense Hermitian input, residual checks only (kind 0 generic, 1 small gaps)
+//   RAND idx d seed kind      seeded dense Hermitian input, residual checks only (kind 0 generic, 1 small gaps, 2 huge identity part, 3 scaled by 2^+-60)
 // stdout:
 //   FAIL id order what err tol : text
 //   DONE ncases ncalls nfail maxEvalRatio maxResRatio
@@ -125,6 +125,8 @@ int main() {
       if (kind == 1) for (int i = 1; i < d; i += 2) ev[i] = ev[i - 1] + std::ldexp(1.0, -(int)(g() % 50));   // small gaps
       Mat M(d);
       for (int i = 0; i < d; i++) for (int j = 0; j < d; j++) { cd s = 0; for (int q = 0; q < d; q++) s += Q(i, q) * ev[q] * std::conj(Q(j, q)); M(i, j) = s; }
+      if (kind == 2) { static const double C0[5] = {1e6, 1e9, 1e12, 1e15, -1e13}; double c0 = C0[g() % 5]; for (int i = 0; i < d; i++) M(i, i) += c0; }   // a huge multiple of the identity on top
+      if (kind == 3) { double f = std::ldexp(1.0, (g() % 2) ? 60 : -60); for (auto& x : M.a) x *= f; }                                           // all entries huge / tiny
       for (int i = 0; i < d; i++) { M(i, i) = M(i, i).real(); for (int j = i + 1; j < d; j++) M(j, i) = std::conj(M(i, j)); }
       ncases++;
       check(-idx - 1, M, std::vector<double>());
